@@ -1041,3 +1041,18 @@ Proof.
 Qed.
 
 End Incremental.
+
+(** A state that lives in memory only is consistent with every store. *)
+Lemma in_memory_consistent_mut (sha256 : list N -> list N) st :
+  (forall t, in_memory t = true -> consistent sha256 st t)
+  /\ (forall f, in_memory_f f = true -> consistent_f sha256 st f).
+Proof.
+  apply atree_aforest_ind.
+  - intros o p ov cs IH H. cbn [in_memory] in H. apply andb_true_iff in H as [H Hc].
+    apply andb_true_iff in H as [Ho Hv]. cbn [consistent]. split; [|split; [|apply IH; exact Hc]].
+    + destruct o as [[r|]|]; [discriminate | exact I | exact I].
+    + destruct ov as [[x [[r|]|]]|]; cbn; try exact I; discriminate.
+  - intros _. exact I.
+  - intros c t IHt r IHr H. cbn [in_memory_f] in H. apply andb_true_iff in H as [Ht Hr].
+    split; [apply IHt; exact Ht | apply IHr; exact Hr].
+Qed.
